@@ -12,7 +12,7 @@ import (
 func init() {
 	Register(&Rule{
 		Name:  "R-DISPATCH",
-		Props: []string{"C17", "C03", "C06"},
+		Props: []string{"C17", "C03", "C06", "C04"},
 		Min:   20,
 		Doc: "sender dispatch: (end-once) sendFileState.endSent is written only in markChunkDone/trySendEnd, set to true only under scheduleDone && inFlight == 0 && !endSent && !verifyPending && !resendPending (a queued re-send must go out first: F20), and from that point the function can only return true; " +
 			"every call site of those two methods uses the result as the condition of an if whose true branch calls sendFileEnd(state) for the same state, and sendFileEnd is called nowhere else; writeFileEnd is only called by sendFileEnd; " +
